@@ -490,6 +490,21 @@ def add_own_refs(s, root):
                     earlier += [leaf[1]["id"] for leaf in walk_struct(st_["y"]) if leaf[0] == "task"]
 
 
+def add_same_yield_dups(s, root):
+    """the same not-yet-started task written more than once in one yielded tuple/list: (a, b, a)"""
+    from .engine import walk_stmts
+    for t in tasks_of(root):
+        for st_ in walk_stmts(t["body"]):
+            if st_["op"] != "yield" or not st_["y"] or st_["y"][0] not in ("T", "L"):
+                continue
+            members = st_["y"][1]
+            firsts = [m[1]["id"] for m in members if m and m[0] == "task"]
+            if len(firsts) >= 2 and s.chance(3):
+                members.append(["ref", firsts[s.int(0, len(firsts) - 2)]])
+            elif len(firsts) == 1 and len(members) >= 2 and members[0] and members[0][0] == "task" and s.chance(4):
+                members.append(["ref", firsts[0]])
+
+
 def priorities(s):
     cfg = s.cfg
     if cfg.prio == "default":
@@ -563,6 +578,8 @@ def programs(draw, cfg):
         add_sharing(s, root)
     if cfg.dag and s.chance(3):
         add_own_refs(s, root)
+    if cfg.dag and s.chance(3):
+        add_same_yield_dups(s, root)
     hoist_mk(root)
     if cfg.reyield:
         add_reyields(s, root)
